@@ -9,7 +9,7 @@ import warnings
 
 from vf import ref_schema as S
 from vf import universe as U
-from vf.core import HarnessError, Tally
+from vf.core import vacuous, HarnessError, Tally
 
 LEVEL = "exploration"
 
@@ -214,7 +214,7 @@ def run(ctx):
     jobs.sort(key=lambda j: -len(S.children(U.cls_by_name(j[0]))))
     tally = ctx.pmap(work, jobs, chunk=1)
     if tally.counts.get("instances", 0) < 10000 or tally.counts.get("class-baselines", 0) < 2 * len(classes):
-        raise HarnessError(f"vacuous: {tally.counts}")
+        vacuous(tally, f"vacuous: {tally.counts}")
     if not tally.fails:
         for f in FORMS:
             if "ok-" + f[0] not in tally.outcomes:
@@ -222,14 +222,14 @@ def run(ctx):
     ex = U.MIN(U.cls_by_name("STMTTRN"))
     tally.sample({"term": ex, "forms": [f[0] for f in FORMS]})
     cov = {
-        "evaluations": tally.counts["evaluations"],
+        "evaluations": tally.counts.get("evaluations", 0),
         "distinct_nontrivial": tally.counts.get("nontrivial-instances", 0),
         "rule": f"{len(classes)} concrete classes x baselines " + ("MIN, MAXS with every instance within <=1 deviation" if ctx.quick else
         "MIN within <=2 deviations, MAXS within <=1 (sub-aggregates also switched to their MAXS), MAXD") +
         " (deviation dimensions: each element over its value alphabet or absent, each sub-aggregate present/absent, each at-most-one/exactly-one group switched, "
         "each repeated kind with 0/1/2/3 distinguishable members, member order reversed/rotated) x 6 wire forms; header version rotating per instance, all 11 "
         "versions on the baselines; every MAXS instance is also edited after having been written (nested element, own element, appended list member) and written again; distinct_nontrivial = distinct deviated instances the constructor accepted (baselines not counted); evaluations = round trips",
-        "instances": tally.counts["instances"],
+        "instances": tally.counts.get("instances", 0),
         "refused_by_constructor": tally.counts.get("refused-by-constructor", 0),
         "classes": len(classes),
         "exhaustive": True,
